@@ -1819,10 +1819,10 @@ variable {M : Type*} [AddCommGroup M]
 theorem product_buffer_bound (N : Nat) (res a : Buf) (key : Key) (Da Dm : Int) (hDa : 0 ≤ Da) (hDm : 0 ≤ Dm) (hD : 1 ≤ key.dsize) (hres : res.WF)
     (hmax : res.maxSize = key.mat.size) (_hsize : res.size = key.mat.size) (hcols : res.cols = key.mat.colsOut)
     (hresn : res.n = N) (han : a.n = N)
-    (ha : ∀ col ∈ a.data, ∀ p ∈ col, PB' N Da p) (hm : ∀ j q, normInf (key.mat.entry j q) ≤ Dm) (c : Nat) (hc : c < res.cols) :
+    (ha : ∀ col ∈ a.data, ∀ p ∈ col, PB N Da p) (hm : ∀ j q, normInf (key.mat.entry j q) ≤ Dm) (c : Nat) (hc : c < res.cols) :
     ∀ p ∈ (Ks.gglweProductDft res a key).act c,
       normInf p ≤ (key.dsize : Int) * (((key.mat.colsIn * key.mat.rows : Nat) : Int) * ((N : Int) * Da * Dm)) :=
-  KsDec.product_bound' N res a key Da Dm hDa hDm hD hres hmax _hsize hcols hresn han ha hm c hc
+  Core.product_bound N res a key Da Dm hDa hDm hD hres hmax _hsize hcols hresn han ha hm c hc
 
 /-- `glwe_keyswitch_value` with the product-buffer hypothesis replaced by the decidable admissible-shape inequality `ksAdmissible` -/
 theorem glwe_keyswitch_value_adm (big128 : Bool) (N bout sout rout : Nat) (a : Ks.Ct) (key : Ks.Key) (sIn skOut : List Poly)
@@ -3292,7 +3292,7 @@ theorem ggsw_automorphism_assign_decrypts (N : Nat) (big128 : Bool) (x0 : Ks.Ct)
 theorem expand_ok_of_digit_bounds (N : Nat) (big128 : Bool) (a0 : Col) (aDft : List Col) (t : ToGGSWKey) (c : Nat) (Da Dt Ha : Int)
     (hDa : 0 ≤ Da) (hDt : 0 ≤ Dt) (hd : 1 ≤ t.dsize) (hn : t.n = N) (hM : ∀ j q, ((t.at c).toPMat.entry j q).length = N) (hc : c < t.rank)
     (ha0 : LimbsN N a0) (hadm : expandAdmissible big128 t N Da Dt Ha)
-    (ha : ∀ col ∈ aDft, ∀ p ∈ col, PB' N Da p) (hm : ∀ j q, normInf ((t.at c).toPMat.entry j q) ≤ Dt)
+    (ha : ∀ col ∈ aDft, ∀ p ∈ col, PB N Da p) (hm : ∀ j q, normInf ((t.at c).toPMat.entry j q) ≤ Dt)
     (hbody : ∀ l ∈ a0, ∀ x ∈ l, |x| ≤ Ha) : ExpandOk N big128 a0 aDft t c :=
   KsDec.expandOk_of_digit_bounds N big128 a0 aDft t c Da Dt Ha hDa hDt hd hn hM hc ha0 hadm ha hm hbody
 
